@@ -321,6 +321,40 @@ func extractC12() *lean {
 	}
 	l.def("applyMaxTestBeforeTake", "Bool", maxFirst, maxFirst)
 	l.def("applyRejectsMinAboveMax", "Bool", minMax, minMax)
+	// ---- matchFilter: is a MatchTimeout assigned to the compiled pattern before it is run, and is it a finite constant?
+	timeoutSet, timeoutExpr := false, ""
+	if fd := funcDecl(pdf, "matchFilter"); fd != nil {
+		var assignPos, runPos token.Pos
+		ast.Inspect(fd, func(n ast.Node) bool {
+			switch x := n.(type) {
+			case *ast.AssignStmt:
+				if len(x.Lhs) == 1 && len(x.Rhs) == 1 && exprString(x.Lhs[0]) == "re.MatchTimeout" {
+					assignPos, timeoutExpr = x.Pos(), exprString(x.Rhs[0])
+				}
+			case *ast.CallExpr:
+				if exprString(x.Fun) == "re.FindStringMatch" {
+					runPos = x.Pos()
+				}
+			}
+			return true
+		})
+		timeoutSet = assignPos.IsValid() && runPos.IsValid() && assignPos < runPos
+	}
+	timeoutValue := ""
+	for _, d := range pdf.Decls {
+		if gd, ok := d.(*ast.GenDecl); ok && gd.Tok == token.CONST {
+			for _, sp := range gd.Specs {
+				vs := sp.(*ast.ValueSpec)
+				for i, n := range vs.Names {
+					if n.Name == timeoutExpr && i < len(vs.Values) {
+						timeoutValue = exprString(vs.Values[i])
+					}
+				}
+			}
+		}
+	}
+	l.def("regexMatchTimeoutSetBeforeRun", "Bool", fmt.Sprint(timeoutSet), timeoutSet)
+	l.def("regexMatchTimeoutValue", "String", fmt.Sprintf("%q", timeoutValue), timeoutValue)
 	l.def("matchFilterArrayGuard", "Bool", arrayGuard, arrayGuard)
 	l.def("matchFilterAssertsString", "Bool", fmt.Sprint(patternAsserts), patternAsserts)
 	l.def("applyMaxGuarded", "Bool", maxGuarded, maxGuarded)
